@@ -279,6 +279,38 @@ def build_args(shape, syntax, pat, test, rng, other=None):
     raise ValueError(shape)
 
 
+class OracleTooSlow(Exception):
+    pass
+
+
+def _on_alarm(signum, frame):
+    raise OracleTooSlow()
+
+
+class Budgeted:
+    """A compiled Python pattern whose match calls are cut off after a few seconds: a backtracking oracle that needs longer on one
+    (pattern, path) pair has no answer for it - the pair is out of domain (counted), never a verdict and never a stall."""
+
+    def __init__(self, rx, seconds=2.0):
+        self.rx, self.seconds = rx, seconds
+        import signal
+        self.signal = signal
+        signal.signal(signal.SIGALRM, _on_alarm)
+
+    def _run(self, fn, text):
+        self.signal.setitimer(self.signal.ITIMER_REAL, self.seconds)
+        try:
+            return fn(text)
+        finally:
+            self.signal.setitimer(self.signal.ITIMER_REAL, 0)
+
+    def fullmatch(self, text):
+        return self._run(self.rx.fullmatch, text)
+
+    def match(self, text):
+        return self._run(self.rx.match, text)
+
+
 def py_flags(test):
     return re.S | (re.I if test == "-iregex" else 0)
 
@@ -356,9 +388,9 @@ def worker(job):
                 st.inc("feature:" + f)
             st.add("distinct", (syntax, test, tuple(args)))
             fl = py_flags(test)
-            py = re.compile(render(ast, "python", reverse_alt=reversed_), fl)   # same alternative order as find was given
-            py2 = re.compile(mode[1], re.S) if mode[0] == "or" else None
-            for p, b in zip(paths, r[2]):
+            py = Budgeted(re.compile(render(ast, "python", reverse_alt=reversed_), fl))   # same alternative order as find was given
+            py2 = Budgeted(re.compile(mode[1], re.S)) if mode[0] == "or" else None
+            def judge_path(p, b):
                 want = py.fullmatch(p) is not None
                 first_len = None
                 if want:
@@ -374,7 +406,7 @@ def worker(job):
                 if b == "E":
                     # the engine gave up on this (pattern, path) and said so on stderr: not an answer about membership
                     st.inc("out_of_domain_engine_gave_up")
-                    continue
+                    return
                 got = b == "1"
                 st.inc("evaluations")
                 st.inc("members" if want else "non_members")
@@ -396,6 +428,12 @@ def worker(job):
                     st.violate("regex-mismatch", sig, {"args": args, "path": p, "python_fullmatch": want_t, "find": got,
                                                        "python_pattern": render(ast, "python"), "shape": shape,
                                                        "first_match_end": first_len}, rp)
+
+            for p, b in zip(paths, r[2]):
+                try:
+                    judge_path(p, b)
+                except OracleTooSlow:
+                    st.inc("out_of_domain_oracle_too_slow")
     finally:
         common.force_rmtree(base)
     return st
@@ -609,9 +647,14 @@ def binary_worker(job):
                 st.violate("binary-failed", None, {"args": args[1:], "rc": rc, "stderr": err[-300:], "timeout": to}, rp)
                 continue
             got = set(x.decode("utf-8", "surrogateescape") for x in out.split(b"\0") if x)
-            py = re.compile(render(ast, "python"), py_flags(test))
+            py = Budgeted(re.compile(render(ast, "python"), py_flags(test)))
             for p_ in allp:
-                want = py.fullmatch(p_) is not None
+                try:
+                    want = py.fullmatch(p_) is not None
+                    first = py.match(p_) if want else None
+                except OracleTooSlow:
+                    st.inc("out_of_domain_oracle_too_slow")
+                    continue
                 st.inc("evaluations")
                 if "\ufffd" in p_:
                     st.inc("binary_evaluations_on_paths_that_are_not_utf8")
@@ -620,7 +663,7 @@ def binary_worker(job):
                 g = p_ in got
                 if g != want:
                     sig = None
-                    m = py.match(p_)
+                    m = first
                     if want and not g and m is not None and m.end() < len(p_):
                         sig = "first-match-shorter-than-path"
                     st.violate("regex-mismatch", sig, {"args": args[1:], "path": p_, "python_fullmatch": want, "find": g,
